@@ -158,7 +158,10 @@ func bcdBases(f spec.Field, thorough bool) [][]byte {
 	var b [][]byte
 	switch f.Enc {
 	case spec.DateTime:
-		b = [][]byte{nil, {0x20, 0x24, 0x02, 0x29, 0x23, 0x59, 0x59}, {0x19, 0x99, 0x12, 0x31, 0x00, 0x00, 0x00}, {0, 0, 0, 0, 0, 0, 0}, {0x20, 0, 0, 0, 0, 0, 0}}
+		b = [][]byte{nil, {0, 0, 0, 0, 0, 0, 0}, {0x20, 0, 0, 0, 0, 0, 0}, {0x20, 0x24, 0x02, 0x29, 0x23, 0x59, 0x59}, {0x19, 0x99, 0x12, 0x31, 0x00, 0x00, 0x00}}
+		if !thorough {
+			b = b[:3]
+		}
 		if thorough {
 			b = append(b, []byte{0x99, 0x99, 0x12, 0x31, 0x23, 0x59, 0x59}, []byte{0x00, 0x01, 0x01, 0x02, 0x00, 0x00, 0x01}, []byte{0x21, 0x00, 0x02, 0x28, 0x09, 0x09, 0x09})
 		}
@@ -239,6 +242,9 @@ func main() {
 				})
 			case spec.Date:
 				years := [][2]byte{{0, 0}, {0, 1}, {0x19, 0x99}, {0x20, 0x00}, {0x20, 0x23}, {0x20, 0x24}, {0x21, 0x00}, {0x99, 0x99}, {0x20, 0x2a}}
+				if r.Quick() {
+					years = [][2]byte{{0, 1}, {0x20, 0x23}, {0x20, 0x24}, {0x21, 0x00}, {0x20, 0x2a}}
+				}
 				for _, y := range years {
 					y := y
 					add(fmt.Sprintf("%s/mmdd-all/year=%02x%02x", f.Name, y[0], y[1]), func(c *client, emit func([]byte)) {
@@ -402,7 +408,7 @@ func main() {
 	}
 	r.Set("cases_per_operation", fam)
 	r.Distinct(distinct.Load())
-	r.Rule("per reply-bearing operation: baseline reply; each 1-byte field x all 256 values; each HH:mm field x all 65536 byte pairs; each BCD date x (all 65536 MMDD pairs x 9 year patterns + all 65536 year pairs x 6 MMDD patterns); each adjacent byte pair of every date-time / system date / system time x all 65536 values x 5 (thorough 8) bases; binary multi-byte fields byte-wise + 32-bit alphabet; all pairs of fields over boundary patterns; echo-rule sentinels over (asked, echoed) pairs of the 32-bit alphabet. distinct = replies generated (each differs from the baseline in the swept bytes; sweeps pass through the baseline value once per family)")
+	r.Rule("per reply-bearing operation: baseline reply; each 1-byte field x all 256 values; each HH:mm field x all 65536 byte pairs; each BCD date x (all 65536 MMDD pairs x 5 (thorough 9) year patterns + all 65536 year pairs x 6 MMDD patterns); each adjacent byte pair of every date-time x all 65536 values x 3 (thorough 8) bases and of every system date / system time x 5 bases; binary multi-byte fields byte-wise + 32-bit alphabet; all pairs of fields over boundary patterns; echo-rule sentinels over (asked, echoed) pairs of the 32-bit alphabet. distinct = replies generated (each differs from the baseline in the swept bytes; sweeps pass through the baseline value once per family)")
 	r.Assume("reference decoder spec.ExpectReply / spec.GetField and tables spec/protocol.go (hand-written)")
 	r.Assume("replies reach the API through the broadcast path of an unconfigured client (the directed paths share the decoding code; their filters are C03)")
 	r.Assume("process time zone pinned to UTC (zone dependence is C05/C13)")
